@@ -3,6 +3,7 @@ package gohlslib
 import (
 	"bytes"
 	"fmt"
+	"sync"
 	"time"
 
 	"github.com/bluenviron/gohlslib/v2/pkg/codecs"
@@ -88,6 +89,8 @@ type muxerSegmenter struct {
 	segmentMinDuration time.Duration
 	partMinDuration    time.Duration
 	parent             muxerSegmenterParent
+	// protects codec parameters, that are read by HTTP handlers
+	paramsMutex sync.Locker
 
 	pendingParamsChange            bool
 	fmp4SampleDurations            map[time.Duration]struct{} // low-latency only
@@ -122,7 +125,9 @@ func (s *muxerSegmenter) writeAV1(
 
 			if !bytes.Equal(codec.SequenceHeader, obu) {
 				s.pendingParamsChange = true
+				s.paramsMutex.Lock()
 				codec.SequenceHeader = obu
+				s.paramsMutex.Unlock()
 			}
 		}
 	}
@@ -178,27 +183,39 @@ func (s *muxerSegmenter) writeVP9(
 
 		if v := h.Width(); v != codec.Width {
 			s.pendingParamsChange = true
+			s.paramsMutex.Lock()
 			codec.Width = v
+			s.paramsMutex.Unlock()
 		}
 		if v := h.Height(); v != codec.Height {
 			s.pendingParamsChange = true
+			s.paramsMutex.Lock()
 			codec.Height = v
+			s.paramsMutex.Unlock()
 		}
 		if h.Profile != codec.Profile {
 			s.pendingParamsChange = true
+			s.paramsMutex.Lock()
 			codec.Profile = h.Profile
+			s.paramsMutex.Unlock()
 		}
 		if h.ColorConfig.BitDepth != codec.BitDepth {
 			s.pendingParamsChange = true
+			s.paramsMutex.Lock()
 			codec.BitDepth = h.ColorConfig.BitDepth
+			s.paramsMutex.Unlock()
 		}
 		if v := h.ChromaSubsampling(); v != codec.ChromaSubsampling {
 			s.pendingParamsChange = true
+			s.paramsMutex.Lock()
 			codec.ChromaSubsampling = v
+			s.paramsMutex.Unlock()
 		}
 		if h.ColorConfig.ColorRange != codec.ColorRange {
 			s.pendingParamsChange = true
+			s.paramsMutex.Lock()
 			codec.ColorRange = h.ColorConfig.ColorRange
+			s.paramsMutex.Unlock()
 		}
 	}
 
@@ -249,19 +266,25 @@ func (s *muxerSegmenter) writeH265(
 		case h265.NALUType_VPS_NUT:
 			if !bytes.Equal(codec.VPS, nalu) {
 				s.pendingParamsChange = true
+				s.paramsMutex.Lock()
 				codec.VPS = nalu
+				s.paramsMutex.Unlock()
 			}
 
 		case h265.NALUType_SPS_NUT:
 			if !bytes.Equal(codec.SPS, nalu) {
 				s.pendingParamsChange = true
+				s.paramsMutex.Lock()
 				codec.SPS = nalu
+				s.paramsMutex.Unlock()
 			}
 
 		case h265.NALUType_PPS_NUT:
 			if !bytes.Equal(codec.PPS, nalu) {
 				s.pendingParamsChange = true
+				s.paramsMutex.Lock()
 				codec.PPS = nalu
+				s.paramsMutex.Unlock()
 			}
 		}
 	}
@@ -330,13 +353,17 @@ func (s *muxerSegmenter) writeH264(
 		case h264.NALUTypeSPS:
 			if !bytes.Equal(codec.SPS, nalu) {
 				s.pendingParamsChange = true
+				s.paramsMutex.Lock()
 				codec.SPS = nalu
+				s.paramsMutex.Unlock()
 			}
 
 		case h264.NALUTypePPS:
 			if !bytes.Equal(codec.PPS, nalu) {
 				s.pendingParamsChange = true
+				s.paramsMutex.Lock()
 				codec.PPS = nalu
+				s.paramsMutex.Unlock()
 			}
 		}
 	}
